@@ -16,6 +16,7 @@
 package main
 
 import (
+	"bytes"
 	"encoding/json"
 	"fmt"
 	"os"
@@ -799,19 +800,19 @@ func (l *evLogger) note(msg string, tags []any) {
 		}
 	}
 }
-func (l *evLogger) Debug(msg string, tags ...any)     {}
-func (l *evLogger) Info(msg string, tags ...any)      { l.note(msg, tags) }
-func (l *evLogger) Warn(msg string, tags ...any)      {}
-func (l *evLogger) Error(msg string, tags ...any)     { l.note(msg, tags) }
-func (l *evLogger) Fatal(msg string, tags ...any)     {}
-func (l *evLogger) Debugf(format string, v ...any)    {}
-func (l *evLogger) Infof(format string, v ...any)     {}
-func (l *evLogger) Warnf(format string, v ...any)     {}
-func (l *evLogger) Errorf(format string, v ...any)    {}
-func (l *evLogger) Fatalf(format string, v ...any)    {}
-func (l *evLogger) With(attrs ...any) logger.Logger   { return l }
+func (l *evLogger) Debug(msg string, tags ...any)       {}
+func (l *evLogger) Info(msg string, tags ...any)        { l.note(msg, tags) }
+func (l *evLogger) Warn(msg string, tags ...any)        {}
+func (l *evLogger) Error(msg string, tags ...any)       { l.note(msg, tags) }
+func (l *evLogger) Fatal(msg string, tags ...any)       {}
+func (l *evLogger) Debugf(format string, v ...any)      {}
+func (l *evLogger) Infof(format string, v ...any)       {}
+func (l *evLogger) Warnf(format string, v ...any)       {}
+func (l *evLogger) Errorf(format string, v ...any)      {}
+func (l *evLogger) Fatalf(format string, v ...any)      {}
+func (l *evLogger) With(attrs ...any) logger.Logger     { return l }
 func (l *evLogger) WithGroup(name string) logger.Logger { return l }
-func (l *evLogger) Write(string)                      {}
+func (l *evLogger) Write(string)                        {}
 
 // ------------------------------------------------------------------------------------------------
 // running one daemon sequence against the real scheduler
@@ -842,26 +843,38 @@ func newDaemon(dir string, fc *fakeClient, lg logger.Logger) (d *daemon) {
 	return &daemon{sc: sc, done: done}
 }
 
+// jobsRunning reports whether a goroutine spawned by (*Scheduler).run (one per invoked entry) still exists.
+var stackBuf = make([]byte, 1<<19)
+
+func jobsRunning() bool {
+	n := runtime.Stack(stackBuf, true)
+	return n == len(stackBuf) || bytes.Contains(stackBuf[:n], []byte("(*Scheduler).run"))
+}
+
+// waitQuiet returns when the goroutines of the tick have ended: none of them is left on any stack and the number
+// of goroutines is back to what it was before the tick.
 func waitQuiet(base int) {
 	deadline := time.Now().Add(10 * time.Second)
-	for calm := 0; calm < 3 && time.Now().Before(deadline); {
-		if runtime.NumGoroutine() > base {
+	for calm := 0; calm < 2 && time.Now().Before(deadline); {
+		if runtime.NumGoroutine() > base || jobsRunning() {
 			calm = 0
+			time.Sleep(20 * time.Microsecond)
 		} else {
 			calm++
+			runtime.Gosched()
 		}
-		time.Sleep(30 * time.Microsecond)
 	}
 }
 
-// waitFor reads the watcher's log until one of the given messages about `file` appears.
-func waitFor(lg *evLogger, file string, alts []string, limit time.Duration) bool {
+// waitProbe reads the watcher's log until a message about a probe file numbered >= k0 appears.
+func waitProbe(lg *evLogger, k0 int, limit time.Duration) bool {
 	deadline := time.After(limit)
 	for {
 		select {
 		case m := <-lg.ch:
-			for _, alt := range alts {
-				if m == alt+"|"+file {
+			if i := strings.Index(m, "|"+probePrefix); i >= 0 {
+				var k int
+				if _, err := fmt.Sscanf(m[i+1+len(probePrefix):], "%d.yaml", &k); err == nil && k >= k0 {
 					return true
 				}
 			}
@@ -877,25 +890,37 @@ const (
 	evRm  = "Workflow removed"
 )
 
-// barrier returns once the watcher goroutine has processed every event raised so far: an unloadable probe
-// file is written (repeatedly while a fresh watcher is still registering the directory) until its load failure
-// is logged, then removed.  Events are handled in order, and neither probe event changes the daemon's table.
+// barrier returns once the watcher goroutine has processed every event raised so far: an unloadable probe file
+// is written (repeatedly while a fresh watcher is still registering the directory) until its load failure is
+// logged.  Events are handled in order; the probe's events (load failure, later its removal) do not change the
+// daemon's table; the probe files are gone from the directory when barrier returns.
+var (
+	probeN      int
+	probePrefix = fmt.Sprintf("zz-probe-%d-", os.Getpid()) // never confused with a file left by a crashed child
+)
+
 func barrier(dir string, lg *evLogger, fresh bool) bool {
-	p := filepath.Join(dir, "zz-probe.yaml")
 	tp := filepath.Join(dir, "probe.tmp")
 	ok := false
+	if fresh {
+		// messages of the initial directory scan (synchronous in scheduler.New) are not watcher events
+		for len(lg.ch) > 0 {
+			<-lg.ch
+		}
+	}
 	tries, limit := 1, 8*time.Second
 	if fresh {
 		tries, limit = 2000, 2*time.Millisecond
 	}
+	k0 := probeN + 1
 	for i := 0; i < tries && !ok; i++ {
+		probeN++
 		_ = os.WriteFile(tp, []byte("steps: [ {name: : :\n"), 0o644)
-		_ = os.Rename(tp, p)
-		ok = waitFor(lg, "zz-probe.yaml", []string{evBad, evUp}, limit)
+		_ = os.Rename(tp, filepath.Join(dir, fmt.Sprintf("%s%d.yaml", probePrefix, probeN)))
+		ok = waitProbe(lg, k0, limit)
 	}
-	_ = os.Remove(p)
-	if ok {
-		ok = waitFor(lg, "zz-probe.yaml", []string{evRm}, 8*time.Second)
+	for k := k0; k <= probeN; k++ {
+		_ = os.Remove(filepath.Join(dir, fmt.Sprintf("%s%d.yaml", probePrefix, k)))
 	}
 	return ok
 }
@@ -944,11 +969,7 @@ func runSeq(c *Case, rs *resume, flush func(i int, op *Op, fc *fakeClient)) {
 		if d != nil {
 			close(d.done)
 			d = nil
-			// the watcher's goroutines wind down asynchronously; the quiescence test of a tick needs a stable count
-			deadline := time.Now().Add(3 * time.Second)
-			for runtime.NumGoroutine() > floorG && time.Now().Before(deadline) {
-				time.Sleep(50 * time.Microsecond)
-			}
+			// the watcher's goroutines wind down asynchronously; waitQuiet does not depend on their number
 		}
 	}
 	defer func() {
@@ -1072,6 +1093,12 @@ func runSeqChild(self string, c *Case, scratch string) {
 				}
 			}
 		}
+		if left, _ := filepath.Glob(filepath.Join(dir, "zz-probe-*.yaml")); len(left) > 0 {
+			for _, f := range left { // probe files of a child that died inside barrier
+				_ = os.Remove(f)
+			}
+		}
+		_ = os.Remove(filepath.Join(dir, "probe.tmp"))
 		if next < len(c.Ops) {
 			// the process died during op `next` (its file operation has been carried out)
 			if c.Crashed < 0 {
@@ -1389,7 +1416,7 @@ func fixedSeqs() []Case {
 		*c2.V = sv("* * * * *")
 		ops = append(ops, Op{Op: "write", F: "bad.yaml", C: &c1, Style: "rename"}, Op{Op: "write", F: "d2.yaml", C: &c2, Style: "inplace"},
 			Op{Op: "tick", M: m + 1, Wall: (m+1)*60 + 5}, Op{Op: "remove", F: "d0.yaml"}, Op{Op: "tick", M: m + 2, Wall: (m+2)*60 + 5},
-			Op{Op: "restart"}, Op{Op: "tick", M: m + 2, Wall: (m+2)*60 + 20}, Op{Op: "tick", M: m + 3, Wall: (m+3)*60})
+			Op{Op: "restart"}, Op{Op: "tick", M: m + 2, Wall: (m+2)*60 + 20}, Op{Op: "tick", M: m + 3, Wall: (m + 3) * 60})
 		cs = append(cs, Case{Kind: "seq", Stream: "fixed-good", Files: []FileC{f("d0.yaml", sv("* * * * *")), {Name: "zz.yaml", C: Content{G: "unknownkey"}}}, Ops: ops})
 	}
 	for i := range cs {
@@ -1530,7 +1557,7 @@ func main() {
 	out.Put(map[string]any{"kind": "meta", "zones": zones, "seed": vh.SeedFromEnv()})
 	nExpr, nInst, nSched, nSeq := 2000, 20, 600, 300
 	if thorough {
-		nExpr, nInst, nSched, nSeq = 20000, 40, 4000, 3000
+		nExpr, nInst, nSched, nSeq = 12000, 40, 4000, 2000
 	}
 	specials := specialInstants()
 	k := 0
